@@ -174,3 +174,65 @@ def write_evidence(ctx: Ctx, proof: dict, violations: int, assumptions: list[str
     }
     with open(os.path.join(env.EVIDENCE, f"{ctx.pid}.json"), "w") as f:
         json.dump(ev, f, indent=1, default=str)
+
+
+def _replay_fails(mod, pid: str, tier: str, seed: int, payload: dict) -> bool:
+    try:
+        c2 = Ctx(pid, tier, seed)
+        rep = mod.replay(c2, payload)
+        if not rep.get("fails"):
+            return False
+        # a failure that is a listed finding does not count: shrinking must not drift into a known finding
+        if c2.oracle_failures and not classify(c2, getattr(mod, "CLASSIFIERS", {})):
+            return False
+        return True
+    except Exception:  # noqa: BLE001
+        return False
+
+
+def shrink(mod, pid: str, tier: str, seed: int, violations: list[dict], budget_s: float = 40.0, max_tries: int = 120) -> tuple[dict, dict]:
+    """Pick the smallest failing case that replays on its own and remove statements from it while the single-case
+    replay keeps failing (greedy one-at-a-time deletion, then halves). Returns (violation, info). A case that does
+    not fail when replayed alone depends on the history of the run and is left as it is."""
+    t0 = time.time()
+    info: dict = {"tried": 0, "removed": 0}
+    cands = [v for v in violations[:60] if isinstance(v.get("case"), dict) and isinstance(v["case"].get("specs"), list)]
+    cands.sort(key=lambda v: len(v["case"]["specs"]))
+    chosen = None
+    for v in cands[:8]:
+        info["tried"] += 1
+        if _replay_fails(mod, pid, tier, seed, {"property": pid, "kind": "oracle", "case": v["case"]}):
+            chosen = v
+            break
+        if time.time() - t0 > budget_s / 2:
+            break
+    if chosen is None:
+        info["status"] = "no spec-based case fails when replayed alone (history-dependent or not spec-based): not shrunk"
+        return violations[0], info
+    case = json.loads(json.dumps(chosen["case"], default=str))
+    specs = case["specs"]
+    n0 = len(specs)
+    changed = True
+    while changed and len(specs) > 1 and info["tried"] < max_tries and time.time() - t0 < budget_s:
+        changed = False
+        for chunk in (max(1, len(specs) // 2), 1):
+            i = 0
+            while i < len(specs) and len(specs) > 1 and info["tried"] < max_tries and time.time() - t0 < budget_s:
+                trial = specs[:i] + specs[i + chunk:]
+                if not trial:
+                    i += chunk
+                    continue
+                info["tried"] += 1
+                c2 = dict(case, specs=trial)
+                if _replay_fails(mod, pid, tier, seed, {"property": pid, "kind": "oracle", "case": c2}):
+                    specs = trial
+                    case = c2
+                    changed = True
+                else:
+                    i += chunk
+    info["removed"] = n0 - len(specs)
+    info["status"] = f"statements {n0} -> {len(specs)}"
+    out = dict(chosen, case=case)
+    if n0 != len(specs):
+        out["case_original"] = chosen["case"]
+    return out, info
